@@ -34,6 +34,7 @@ func runC06(p *eng.Prog, r *eng.Report, tier string) {
 	c06JoinCtx(c)
 	serveWait(c, "C06.9")
 	serveLockWait(c, "C06.14")
+	callerAttrsCopied(c, "C06.15")
 	waitKey(c, "C06.10")
 	handoffDrained(c, "C06.2")
 	cancelledWaiterToHandler(c, "C06.2")
